@@ -509,6 +509,16 @@ def run_check(cls: type, tier: str, seed: int) -> int:
         ok, out = coq_make(targets)
         cmds.append('make -C coq ' + ' '.join(targets))
         if not ok:
+            # lia/nia keep a cache file in coq/ that concurrent coqc processes of one `make -j` share; should a damaged
+            # cache ever make a proof fail, a second build without it must not: a genuine failure fails again
+            for c in ('.lia.cache', '.nia.cache', '.nra.cache'):
+                try:
+                    (COQ / c).unlink()
+                except OSError:
+                    pass
+            ok, out = coq_make(targets)
+            cmds.append('make -C coq (second attempt, lia caches removed)')
+        if not ok:
             m = re.findall(r'File "([^"]+)", line (\d+)[^\n]*\n(?:.*\n){0,6}?Error:[^\n]*(?:\n[^\n]+){0,4}', out)
             err = re.search(r'File "[^"]+", line \d+.*?Error:.*?(?=\n\n|\nmake|\Z)', out, flags=re.S)
             what = 'proof obligation no longer checks: ' + (err.group(0)[:1500] if err else out[-1500:])
